@@ -177,6 +177,114 @@ fn dumb_line(line: &str) -> String {
     })
 }
 
+/// Work::create_parent_dirs and task::write_rspfile on a real scratch tree (Model/Fs.v).
+/// <cwd-hex> ; <tree: D path-hex | F path-hex content-hex, ','-separated, parents first> ; <ops: D out-hex... | R name-hex content-hex>
+/// Names starting with '/' are placed under the scratch root.  Prints the result of every operation and the final tree.
+fn fs_line(line: &str) -> String {
+    use std::os::unix::ffi::OsStringExt;
+    let line = line.to_string();
+    guarded(move || {
+        let parts: Vec<&str> = line.split(';').collect();
+        if parts.len() != 3 {
+            return "bad".to_string();
+        }
+        let root = std::env::temp_dir().join(format!("n2verif-fs-{}", std::process::id()));
+        let _ = std::fs::remove_dir_all(&root);
+        std::fs::create_dir_all(&root).unwrap();
+        let os = |b: Vec<u8>| std::path::PathBuf::from(std::ffi::OsString::from_vec(b));
+        for e in parts[1].split(',') {
+            let w = words(e);
+            match w.as_slice() {
+                [] => {}
+                ["D", p] => std::fs::create_dir(root.join(os(unhex(p)))).unwrap(),
+                ["F", p, c] => std::fs::write(root.join(os(unhex(p))), unhex(c)).unwrap(),
+                _ => panic!("bad fs entry"),
+            }
+        }
+        let cwd = root.join(os(unhex(parts[0])));
+        let old = std::env::current_dir().unwrap();
+        std::env::set_current_dir(&cwd).unwrap();
+        let place = |name: Vec<u8>| -> Vec<u8> {
+            if name.first() == Some(&b'/') {
+                let mut v = root.clone().into_os_string().into_vec();
+                v.extend_from_slice(&name);
+                v
+            } else {
+                name
+            }
+        };
+        let errname = |e: i32| match e {
+            2 => "ENOENT".to_string(),
+            17 => "EEXIST".to_string(),
+            20 => "ENOTDIR".to_string(),
+            21 => "EISDIR".to_string(),
+            n => format!("E{}", n),
+        };
+        let mut res: Vec<String> = Vec::new();
+        let body = panic::catch_unwind(panic::AssertUnwindSafe(|| {
+            for o in parts[2].split(',') {
+                let w = words(o);
+                match w.as_slice() {
+                    [] => {}
+                    ["R", n, c] => {
+                        let r = n2::verif::write_rspfile(os(place(unhex(n))), unhex(c));
+                        res.push(match r { Ok(()) => "ok".to_string(), Err(e) => errname(e) });
+                    }
+                    w if w[0] == "D" => {
+                        let mut text: Vec<u8> = b"rule r\n  command = x\nbuild".to_vec();
+                        for n in &w[1..] {
+                            text.push(b' ');
+                            for b in place(unhex(n)) {
+                                if b == b' ' || b == b':' || b == b'$' || b == b'|' {
+                                    text.push(b'$');
+                                }
+                                text.push(b);
+                            }
+                        }
+                        text.extend_from_slice(b": r\n");
+                        // the manifest and the log live outside the tree under test
+                        let side = root.with_extension("side");
+                        let _ = std::fs::remove_dir_all(&side);
+                        std::fs::create_dir_all(&side).unwrap();
+                        let mf = side.join("build.ninja");
+                        let mut full = format!("builddir = {}\n", side.display()).into_bytes();
+                        full.extend_from_slice(&text);
+                        std::fs::write(&mf, full).unwrap();
+                        let mut r = Err(-3);
+                        let _warnings = capture_stdout(|| r = n2::verif::create_parent_dirs(mf.to_str().unwrap(), 0));
+                        let _ = std::fs::remove_dir_all(&side);
+                        res.push(match r { Ok(()) => "ok".to_string(), Err(e) => errname(e) });
+                    }
+                    _ => panic!("bad fs op"),
+                }
+            }
+        }));
+        std::env::set_current_dir(&old).unwrap();
+        let mut items: Vec<String> = Vec::new();
+        fn listing(root: &std::path::Path, dir: &std::path::Path, items: &mut Vec<String>) {
+            use std::os::unix::ffi::OsStrExt;
+            for e in std::fs::read_dir(dir).unwrap() {
+                let e = e.unwrap();
+                let p = e.path();
+                let rel = p.strip_prefix(root).unwrap().as_os_str().as_bytes().to_vec();
+                if e.file_type().unwrap().is_dir() {
+                    items.push(format!("D {}", hex(&rel)));
+                    listing(root, &p, items);
+                } else {
+                    items.push(format!("F {} {}", hex(&rel), hex(&std::fs::read(&p).unwrap())));
+                }
+            }
+        }
+        listing(&root, &root, &mut items);
+        items.sort();
+        let _ = std::fs::remove_dir_all(&root);
+        if let Err(e) = body {
+            return format!("panic {}", panic_site(&e));
+        }
+        format!("{} | {}", res.join(" "), items.join(","))
+    })
+}
+
 /// run.rs parse_args on a real command line: this executable is started again (argv[0] and the arguments as given, cwd = a
 /// scratch directory with the subdirectories d1, d1/d2 and "with space") and reports what parse_args returned.
 /// <argv0-hex> [arg-hex ...]
@@ -583,6 +691,7 @@ fn main() {
         "task" => task_line,
         "cli" => cli_line,
         "dumb" => dumb_line,
+        "fs" => fs_line,
         "dedup" => dedup_line,
         "hist" => hist::hist_line,
         "db" => db_line,
